@@ -22,7 +22,7 @@ use ruma_common::{
     room_version_rules::{EventIdFormatVersion, RoomVersionRules},
     CanonicalJsonObject, CanonicalJsonValue,
 };
-use ruma_signatures::{content_hash, reference_hash, Error};
+use ruma_signatures::{content_hash, hash_and_sign_event, reference_hash, Ed25519KeyPair, Error};
 use serde_json::{json, Value};
 use sha2::{Digest, Sha256};
 
@@ -277,6 +277,42 @@ fn run_ref(ver: u32, o: CanonicalJsonObject, req: &str) -> Outcome {
 
 /// Behavioural: which alphabet does `reference_hash` use for this version? Probe events until the
 /// digest contains one of the two characters the alphabets differ in.
+/// `hashes.sha256` written by `hash_and_sign_event` (observe_at of C05): whatever the event carried
+/// under `hashes` before, the stored value must be the content hash of the event as it is now.
+/// Answer: `err size` (too large), `err other` (`hashes` present and not an object), otherwise
+/// `ok <sha256 as stored> <number of keys of hashes afterwards>` — read from the object the real
+/// function left behind (the insertion happens before the redact/sign steps, so it is there even
+/// when those fail).
+fn run_stored(ver: u32, orig: CanonicalJsonObject) -> Outcome {
+    let mut d = vec![0x30u8, 0x2e, 0x02, 0x01, 0x00, 0x30, 0x05, 0x06, 0x03, 0x2b, 0x65, 0x70, 0x04, 0x22, 0x04, 0x20];
+    d.extend_from_slice(&[7u8; 32]);
+    let kp = Ed25519KeyPair::from_der(&d, "1".to_owned()).expect("PKCS#8 v1 document for a 32-byte seed");
+    let mut ev = orig.clone();
+    let r = hash_and_sign_event("h.example", &kp, &mut ev, &rules(ver).redaction);
+    let mut t3 = Vec::new();
+    let ans = match (&r, ev.get("hashes")) {
+        (Err(Error::PduSize), _) => "err size".to_owned(),
+        (_, Some(CanonicalJsonValue::Object(h))) => match h.get("sha256") {
+            Some(CanonicalJsonValue::String(sv)) => {
+                // T3: the stored hash is the content hash of the event as returned
+                match content_hash_str(&ev) {
+                    Ok(now) if &now != sv => t3.push(format!(
+                        "hashes.sha256 written by hash_and_sign_event ({sv}) is not the content hash of the event ({now})"
+                    )),
+                    _ => {}
+                }
+                format!("ok {sv} {}", h.len())
+            }
+            _ => {
+                t3.push("hashes.sha256 after hash_and_sign_event is not a string".to_owned());
+                format!("ok #not-a-string {}", h.len())
+            }
+        },
+        _ => "err other".to_owned(),
+    };
+    Outcome { imp: ans, t3 }
+}
+
 fn run_alpha(ver: u32) -> String {
     let rules = rules(ver);
     for i in 0..1000 {
@@ -340,6 +376,18 @@ pub fn run(req: &str) -> Outcome {
                 return bad();
             }
             run_content(ev, req)
+        }
+        "c05.stored" => {
+            let Some(ver) = toks.get(1).and_then(|t| t.parse::<u32>().ok()) else { return bad() };
+            if !(1..=11).contains(&ver) {
+                return bad();
+            }
+            let mut it = toks[2..].iter();
+            let Some(ev) = cj_parse_obj(&mut it) else { return bad() };
+            if it.next().is_some() {
+                return bad();
+            }
+            run_stored(ver, ev)
         }
         "c05.ref" => {
             let Some(ver) = toks.get(1).and_then(|t| t.parse::<u32>().ok()) else { return bad() };
@@ -622,6 +670,35 @@ fn gen(rng: &mut Rng, n: usize, tier: &str) -> Vec<Req> {
             let e = to_cj_obj(Value::Object(ev));
             v.push(Req::new(req_ref(ver, &e), "ref"));
         }
+    }
+    // hashes.sha256 written by hash_and_sign_event: fresh events, events that already carry `hashes`
+    // (a stale sha256, other algorithms, an empty object, ill-shaped values), all versions
+    for i in 0..(n / 10).max(60) {
+        let mut ev = gen_event(rng, false);
+        match i % 6 {
+            0 => {
+                ev.remove("hashes");
+            }
+            1 => {
+                ev.insert("hashes".into(), json!({}));
+            }
+            2 => {
+                ev.insert("hashes".into(), json!({"sha256": "n4bQgYhMfWWaL+qgxVrQFaO/TxsrC4Is0V1sFbDwCgg"}));
+            }
+            3 => {
+                ev.insert("hashes".into(), json!({"md5": "kept", "sha256": "stale"}));
+            }
+            4 => {
+                ev.insert("hashes".into(), json!({"sha512": "other", "sha256": 5}));
+            }
+            _ => {
+                ev.insert("hashes".into(), gen_canonical_value(rng, 1));
+            }
+        }
+        ev.remove("signatures");
+        let e = to_cj_obj(Value::Object(ev));
+        let ver = rng.range(1, 11) as u32;
+        v.push(Req::new(format!("c05.stored {ver} {}", cj_obj_toks(&e)), "stored"));
     }
     for _ in 0..n {
         let ev = to_cj_obj(Value::Object(gen_event(rng, true)));
